@@ -411,7 +411,7 @@ def run(pm, ctx):
     e9b = [r for r in e9res if r[0].startswith("Douglas._compute_grads") and r[1] != "undecided"]
     if e9b:
         # the backward pass through sort / padding / cumsum is decided by C03-m / C03-i on the derived maps (it is part of C03's statement, not C15's)
-        expect_assign(ctx, "C15-c", u, "Douglas._infer", inf, "all_orders", ["[x[1] for x in all_binnings_results]"], "Douglas._infer: retained orders", "the retained orders are not those returned by _leaf_binning")
+        _retained_orders(ctx, u, inf)
         return _c15d(pm, ctx, u, fa)
     site = "Douglas._compute_grads: inverse permutation"
     okp = False
@@ -434,8 +434,55 @@ def run(pm, ctx):
     expect_assign(_Soft(ctx), "C15-c", u, "Douglas._compute_grads", cg, "bias_grad", ["bin_grad.sum(0)[1:]"], "Douglas._compute_grads: bias gradient", "the gradient of the constant first bias is not dropped")
     expect_assign(_Soft(ctx), "C15-c", u, "Douglas._compute_grads", cg, "cumsum_grad", ["-np.cumsum(bias_grad[::-1])[::-1]"], "Douglas._compute_grads: cumulative bias", "the back-propagation "
                   "through b = cumsum(-sorted cuts) is not the negated reverse cumulative sum")
-    expect_assign(ctx, "C15-c", u, "Douglas._infer", inf, "all_orders", ["[x[1] for x in all_binnings_results]"], "Douglas._infer: retained orders", "the retained orders are not those returned by _leaf_binning")
+    _retained_orders(ctx, u, inf)
     return _c15d(pm, ctx, u, fa)
+
+
+def _retained_orders(ctx, u, inf):
+    """the orders kept for back-propagation are, feature by feature in the order of cut_points_list_, the second results of _leaf_binning:
+    either projected from the list of results ([x[1] for x in results]) or collected in the loop that calls _leaf_binning"""
+    site = "Douglas._infer: retained orders"
+    src = {str(norm_src(s_.targets[0])): s_ for s_ in ast.walk(inf) if isinstance(s_, ast.Assign) and len(s_.targets) == 1 and isinstance(s_.targets[0], ast.Name)}
+    ao = src.get("all_orders")
+    if ao is not None and isinstance(ao.value, ast.ListComp) and len(ao.value.generators) == 1:
+        g = ao.value.generators[0]
+        tv = str(norm_src(g.target))
+        res = g.iter
+        ok_proj = str(norm_src(ao.value.elt)) == f"{tv}[1]" and not g.ifs
+        # the list projected is the list of _leaf_binning results over cut_points_list_
+        from ..match import resolve_expr, cfg_node
+        try:
+            cfg_ = CFG(inf)
+            full = str(norm_src(resolve_expr(cfg_, cfg_node(cfg_, ao), res)))
+        except Exception:
+            full = str(norm_src(res))
+        if ok_proj and "_leaf_binning" in full and "self.cut_points_list_" in full:
+            ctx.ok("C15-c", site, "second results of _leaf_binning, projected from the list of results")
+        elif ok_proj:
+            ctx.unrecognised("C15-c", site, f"the projected list `{full[:60]}` was not traced to the _leaf_binning results")
+        else:
+            ctx.violation("C15-c", u.relpath, "Douglas._infer", norm_src(ao)[:160], "the retained orders are not those returned by _leaf_binning", line=ao.lineno, site=site)
+        return
+    # loop form
+    for lp in [n for n in ast.walk(inf) if isinstance(n, ast.For) and str(norm_src(n.iter)) in ("self.cut_points_list_", "enumerate(self.cut_points_list_)")]:
+        calls = [s_ for s_ in lp.body if isinstance(s_, ast.Assign) and isinstance(s_.value, ast.Call) and (call_name(s_.value) or "").endswith("_leaf_binning")
+                 and isinstance(s_.targets[0], ast.Tuple) and len(s_.targets[0].elts) == 2]
+        if not calls:
+            continue
+        second = str(norm_src(calls[0].targets[0].elts[1]))
+        first = str(norm_src(calls[0].targets[0].elts[0]))
+        grows = [s_ for s_ in lp.body if (isinstance(s_, ast.Expr) and isinstance(s_.value, ast.Call) and isinstance(s_.value.func, ast.Attribute) and s_.value.func.attr == "append"
+                                          and str(norm_src(s_.value.func.value)) == "all_orders") or
+                 (isinstance(s_, ast.AugAssign) and str(norm_src(s_.target)) == "all_orders")]
+        if len(grows) == 1:
+            added = grows[0].value.args[0] if isinstance(grows[0], ast.Expr) else (grows[0].value.elts[0] if isinstance(grows[0].value, ast.List) and len(grows[0].value.elts) == 1 else None)
+            if added is not None and str(norm_src(added)) == second:
+                ctx.ok("C15-c", site, "second result of each _leaf_binning call, collected in the loop over cut_points_list_")
+            else:
+                ctx.violation("C15-c", u.relpath, "Douglas._infer", norm_src(grows[0])[:160], f"the retained orders collect `{norm_src(added) if added is not None else '?'}`, not the order `{second}` "
+                              f"returned by _leaf_binning (first result: `{first}`)", line=grows[0].lineno, site=site)
+            return
+    ctx.unrecognised("C15-c", site, "neither a projection of the list of _leaf_binning results nor a loop collecting the second result")
 
 
 def _c15d(pm, ctx, u, fa):
